@@ -1,16 +1,12 @@
 (** C05 — proofs, part 1: the reachability certificate (one kernel evaluation per model variant)
     and the bridge from runs of the LTS to paths of the explored product system. *)
 From Coq Require Import List Bool PeanoNat Lia.
-From Texel Require Import Ctl.Uci Ctl.Engine Ctl.Dec Ctl.CtlSpec Ctl.Reach Ctl.CtlInv.
+From Texel Require Import Ctl.Uci Ctl.Engine Ctl.Dec Ctl.CtlSpec Ctl.Reach Ctl.CtlInv Ctl.CtlCert0 Ctl.CtlCert1.
 Import ListNotations.
 
-(** * The certificate: every reachable product state satisfies [sinv], every enabled step [tinv] *)
-Lemma certificate_unguarded : check_all false = true.
-Proof. vm_cast_no_check (eq_refl true). Qed.
-
-Lemma certificate_guarded : check_all true = true.
-Proof. vm_cast_no_check (eq_refl true). Qed.
-
+(** * The certificate: every reachable product state satisfies [sinv], every enabled step [tinv]
+    (evaluated by the kernel in Ctl/CtlCert0.v and Ctl/CtlCert1.v, one file per model variant
+    so that the two evaluations run in parallel) *)
 Lemma certificate : forall g, check_all g = true.
 Proof. intros [|]; [exact certificate_guarded | exact certificate_unguarded]. Qed.
 
